@@ -166,6 +166,26 @@ def c07(tier):
     chk.programs += len(eds)
     rep = B.run(ws, prof, 'enum', ['--full-n', 16 if tier == 'quick' else 24], out_name=f"report-C07-{prof}.json")
     chk.add_report(rep, f"enum-{tier}:{prof}")
+    # OPTIONAL spelling: `#[bitenum(exhaustive = x, uN)]` (arguments in the undocumented order): compiled one by one; accepted ones are explored
+    import dataclasses
+    from . import declmc as D
+    opt = [dataclasses.replace(e, exh_first=True) for e in eds[::7] if not e.omit_exh]
+    arts = D.carrier()
+    items = [D.Item(j, R.enum_decl(e)) for j, e in enumerate(opt)]
+    errs, unatt = D.compile_items(arts, items, "c07-optional", emit="metadata", nshards=16)
+    if unatt:
+        raise B.MachineryError(f"C07 optional enums: unattributed diagnostics: {unatt[:3]}")
+    acc = [e for j, e in enumerate(opt) if j not in errs]
+    chk.extra["optional_enum_spellings_probed"] = len(opt)
+    chk.extra["optional_enum_spellings_accepted"] = len(acc)
+    if acc:
+        wso, ok, dt, diag = B.build_enum_set(f"enumopt-{tier}", acc, prof)
+        if not ok:
+            chk.compile_violation("compile", f"enumopt-{tier}", prof, diag, len(acc))
+        else:
+            chk.programs += len(acc)
+            chk.add_report(B.run(wso, prof, 'enum', ['--full-n', 16], out_name=f"report-C07-opt-{prof}.json"), f"enumopt-{tier}:{prof}")
+    chk.bounds.append(f"OPTIONAL: {len(opt)} of the enums again with `exhaustive` written before the storage type; the accepted ones are explored")
     chk.bounds.append("N<=3: every non-empty discriminant set in several declaration orders (all permutations for N<=2) x every accepted exhaustive form (=, :, omitted, conditional, conditional with cfg(any()) variants); "
                       "N=4: " + ("sizes <=2 and >=14" if tier == 'quick' else "all 65535 sets") + "; N 5..8: exhaustive (3 orders), full-1, singletons, {0,max}; every N in 9..=64: {max}, {0,max}, {0,1,2^(N-1),max}; "
                       "raw values: all 2^N for N<=" + ("16" if tier == 'quick' else "24") + ", boundary alphabet (disc +-1, 2^k, 2^k-1, walking bits) above")
